@@ -32,17 +32,17 @@ CLAIMED = {
   "The predicate must branch only on y%c ==/!= 0 tests (otherwise undecided). Nothing is executed; residues are abstract elements.",
   "constant evaluation by go/types + congruence-domain abstract interpretation of the CFG"),
  "C17": ("other",
-  "Structural clauses of 'always answers' and of the reporting rules, decided on every path of the runner: the deferred result encoding is registered first in the entry block and encodeResults calls Encode on the runner's writer exactly once on every path (one document per exit); every interface value dereferenced between decoding and Run and every argument of Run is non-nil on all paths (nil-ness lattice with per-return-site summaries; found and fixed the no-inputs request); the catalogue factory is nil-checked before the call; a float64 enters the result tree only through JsonSafeValue under !IsNaN && !IsInf(.,0) and every element/map entry comes from the JSON-safe functions; defaults are returned only with a message, defaulted parameters and missing inputs append warnings and all warnings are logged before Run; request input k is copied into row k of the model's input array (position in the model description, not in the request); the JSON conversion never writes through the array it converts (Shape() aliases the array's own dimension vector); a supplied series reaches the copy into the input array only through the allocation it sizes or through a length comparison (found and fixed: unequal-length inputs crashed or were padded silently); the request is decoded from the caller's reader itself; the runner lacks the dimension handshake of its sibling entry points (known finding). Equivalence with a direct run and panic-freedom of kernels are NOT decided.",
+  "Structural clauses of 'always answers' and of the reporting rules, decided on every path of the runner: the deferred result encoding is registered first in the entry block and encodeResults calls Encode on the runner's writer exactly once on every path (one document per exit); every interface value dereferenced between decoding and Run and every argument of Run is non-nil on all paths (nil-ness lattice with per-return-site summaries; found and fixed the no-inputs request); the catalogue factory is nil-checked before the call; a float64 enters the result tree only through JsonSafeValue under !IsNaN && !IsInf(.,0) and every element/map entry comes from the JSON-safe functions; defaults are returned only with a message, defaulted parameters and missing inputs append warnings and all warnings are logged before Run; request input k is copied into row k of the model's input array (position in the model description, not in the request); the JSON conversion never writes through the array it converts (Shape() aliases the array's own dimension vector); a supplied series reaches the copy into the input array only through the allocation it sizes or through a length comparison (found and fixed: unequal-length inputs crashed or were padded silently); the request is decoded from the caller's reader itself; the runner lacks the dimension handshake of its sibling entry points (known finding). Equivalence with a direct run and panic-freedom of kernels are NOT decided. R17.11: nothing reachable from the runner writes a package-level variable or reads one written outside initialisation (the runner keeps nothing between requests).",
   "DESIGN.md section 2, C17",
   "Results of TimeSteppingModel interface methods are assumed non-nil by contract. Kernels run in goroutines the runner cannot recover; their panic-freedom is a value property.",
   "must-pass-through / dominance checks + interprocedural nil-ness lattice + guard-edge check of the non-finite encoding on go/ssa"),
  "C14": ("other",
-  "Structural necessary conditions of purity and causality, decided over every module function reachable (VTA call graph) from any wrapper method and over every kernel: no write of a package-level variable and no read of one that is written outside package initialisation; model struct fields are assigned only by ApplyParameters/InitialiseDimensions; no call of time.Now/rand/os.Getenv/file reads and no map iteration; in every kernel each read of an input series and each write of an output series inside the time loop uses the loop's own induction variable as time index (through the reaching store of the one-element index vector), inputs are read outside the loop only at index 0, no whole-series reduction of an input; Run never writes storage reachable from its inputs/parameters arguments (a later run on the same arrays would see different inputs); inside a kernel's time loop nothing that influences outputs or states derives from the length of the series (the truncation clause). Together these are sufficient for 'outputs up to t do not depend on inputs after t' given Get/Set semantics (C01). Bit-identity as such is not executed or compared.",
+  "Structural necessary conditions of purity and causality, decided over every module function reachable (VTA call graph) from any wrapper method and over every kernel: no write of a package-level variable and no read of one that is written outside package initialisation; model struct fields are assigned only by ApplyParameters/InitialiseDimensions; no call of time.Now/rand/os.Getenv/file reads and no map iteration; in every kernel each read of an input series and each write of an output series inside the time loop uses the loop's own induction variable as time index (through the reaching store of the one-element index vector), inputs are read outside the loop only at index 0, no whole-series reduction of an input; Run never writes storage reachable from its inputs/parameters arguments (a later run on the same arrays would see different inputs); inside a kernel's time loop nothing that influences outputs or states derives from the length of the series (the truncation clause). Together these are sufficient for 'outputs up to t do not depend on inputs after t' given Get/Set semantics (C01). Bit-identity as such is not executed or compared. R14.7: no kernel or helper appends to a slice aliasing the shared arrays (R04.6 seen from C14).",
   "DESIGN.md section 2, C14",
   "One symbol-wide exception (routing.lag reads i-lagSteps). Stdlib internals (fmt, math) are not inspected. Rejected rule: 'every output written on every path' (early returns leave zero-initialised outputs, which the property's quantifier makes correct).",
   "call-graph reachability + global/field store scan + reaching-store evaluation of time indices on go/ssa"),
  "C13": ("other",
-  "Decides the bookkeeping structure of the adaptive sub-stepping for every path through it: each accumulator weighted by the sub-step length that reaches an output executes control-equivalently with the subtraction of that sub-step from the remaining time (once per accepted sub-step, never in the trial loop) - exactly the clause the property's why_tests_cant names, and it found the rainfall/evaporation accounting defect, now fixed; the increments of the reported totals are, as symbolic monomials, terms of the volume update (R13.4), so the reported volumes are the ones that changed the volume, in the same units; final level and area are the capped table lookups of the very value returned as volume; contributions to the outflow other than the release term are conditional on volume > volumes[nLVA-1]. The min/max release bounds and numerical closure are NOT decided. R13.5: every value written to the outflow series inside the time loop is data-dependent on a function that consults both the minimum- and the maximum-release curve (followed into closures and into a struct bundling the curves), so no path through a timestep reports an outflow without the release rule.",
+  "Decides the bookkeeping structure of the adaptive sub-stepping for every path through it: each accumulator weighted by the sub-step length that reaches an output executes control-equivalently with the subtraction of that sub-step from the remaining time (once per accepted sub-step, never in the trial loop) - exactly the clause the property's why_tests_cant names, and it found the rainfall/evaporation accounting defect, now fixed; the increments of the reported totals are, as symbolic monomials, terms of the volume update (R13.4), so the reported volumes are the ones that changed the volume, in the same units; final level and area are the capped table lookups of the very value returned as volume; contributions to the outflow other than the release term are conditional on volume > volumes[nLVA-1]. The min/max release bounds and numerical closure are NOT decided. R13.5: every value written to the outflow series inside the time loop is data-dependent on a function that consults both the minimum- and the maximum-release curve (followed into closures and into a struct bundling the curves), so no path through a timestep reports an outflow without the release rule. R13.6: the sub-step subtracted from the remaining time depends on a math.Min(remaining time, ·) evaluated earlier in the same iteration.",
   "DESIGN.md section 2, C13",
   "Sub-step loop recognised as `for T > 0 { ...; T -= dt }`; versions of a source variable related through SSA phi webs; R13.4 treats non-polynomial subexpressions as opaque symbols.",
   "control-equivalence (dominance/post-dominance) of accumulations + symbolic polynomial comparison of update terms on go/ssa"),
@@ -57,7 +57,7 @@ CLAIMED = {
   "Anchors are found structurally (function reaching WriteData, goroutine calling it, its channel). No model checking of the writer/main interleavings; the token argument is an inductive invariant checked by local rules only.",
   "protocol invariants by dominance/must-pass-through on go/ssa + symbolic leaf comparison of offsets + bool-correlated definite assignment"),
  "C06": ("other",
-  "Decides, for every path of each of the 17 stateful kernels and all 41 wrappers, that what is carried between timesteps comes from and goes back to the state vector: every value carried around the time loop (SSA header phi or buffer allocated outside the loop and read before written) that influences outputs is initialised from a STATE argument and reaches a returned state; a state the kernel evolves is not returned unevolved; wrappers read state k into kernel argument nInputs+k and write the kernel's k-th state result back to position k (or extract→kernel→pack in matching order); the two custom pack/extract pairs store the contents of every component and read it at the same symbolic offset; where a kernel hands the run to another catalogued kernel, the caller state passed as the callee's state k is the state the callee's evolved state k is returned as; in kernels with one time loop no value computed inside the loop that influences outputs or states is derived from the length of the series (run-length independence); successive counting loops that rewrite a slice-typed state buffer start at 0 or exactly where the previous one ended, as linear forms (found and fixed the lag buffer refill for calls shorter than the lag). This found six genuine defects (three repaired, two recorded as known findings needing new state variables). Numerical equality of split and unsplit runs is NOT decided. R06.7 (tool/c06refill.go) judges the once-per-call rewrites of slice-typed state buffers as a chain of events — counting loops, copy calls (windows of equal length), calls of helpers handed the buffer directly or inside a wrapping struct, translated through the call's arguments — each starting at 0 or where the previous one ended, and a shift within the buffer keeping the tail of the range rebuilt; writes through helpers, copy and wrapping structs make a vector carried memory (R06.1), and a working copy of a state buffer has to be handed back (R06.2).",
+  "Decides, for every path of each of the 17 stateful kernels and all 41 wrappers, that what is carried between timesteps comes from and goes back to the state vector: every value carried around the time loop (SSA header phi or buffer allocated outside the loop and read before written) that influences outputs is initialised from a STATE argument and reaches a returned state; a state the kernel evolves is not returned unevolved; wrappers read state k into kernel argument nInputs+k and write the kernel's k-th state result back to position k (or extract→kernel→pack in matching order); the two custom pack/extract pairs store the contents of every component and read it at the same symbolic offset; where a kernel hands the run to another catalogued kernel, the caller state passed as the callee's state k is the state the callee's evolved state k is returned as; in kernels with one time loop no value computed inside the loop that influences outputs or states is derived from the length of the series (run-length independence); successive counting loops that rewrite a slice-typed state buffer start at 0 or exactly where the previous one ended, as linear forms (found and fixed the lag buffer refill for calls shorter than the lag). This found six genuine defects (three repaired, two recorded as known findings needing new state variables). Numerical equality of split and unsplit runs is NOT decided. R06.7 (tool/c06refill.go) judges the once-per-call rewrites of slice-typed state buffers as a chain of events — counting loops, copy calls (windows of equal length), calls of helpers handed the buffer directly or inside a wrapping struct, translated through the call's arguments — each starting at 0 or where the previous one ended, and a shift within the buffer keeping the tail of the range rebuilt; writes through helpers, copy and wrapping structs make a vector carried memory (R06.1), and a working copy of a state buffer has to be handed back (R06.2). R06.8: a state clamped on entry (math.Min/Max against a non-constant bound) while the loop holds the same carried variable against a different bound and never against that one is reported.",
   "DESIGN.md section 2, C06",
   "One symbol-wide exception (storageRouting:qi, solver warm start, within the property's stated tolerance). Time loops are recognised as outermost loops bounded by a series length; control influence is approximated by branch regions.",
   "loop-carried-value (SSA phi / memory) provenance analysis + symbolic layout comparison of pack/extract"),
